@@ -37,6 +37,20 @@ class AoefProp(Prop):
         shutil.rmtree(self.dir, ignore_errors=True)
         self.dir.mkdir(parents=True, exist_ok=True)
         self.inv = A.inventory_problems(references_only=self.REFERENCES_ONLY)
+        # the translator's reading of the adapters must equal the schema table (else the model is not known to describe the code)
+        from .. import aoef_extract as E
+        from ..core import REPO_SRC
+
+        try:
+            self.extraction = E.extract_all(REPO_SRC)
+            diffs = E.differences(self.extraction)
+            if self.REFERENCES_ONLY:
+                diffs = [d for d in diffs if "document fields written" not in d and "data fields rebuilt" not in d
+                         and "document field" not in d and "data field" not in d]
+            self.inv += ["translator: " + d for d in diffs]
+        except Exception as e:  # fail closed
+            self.extraction = None
+            self.inv.append(f"translator cannot read the adapters: {type(e).__name__}: {e}")
         self._n = 0
 
     def teardown(self):
